@@ -133,7 +133,8 @@ type ccObs struct {
 	Events    []string    `json:"events,omitempty"`
 }
 
-const ccCallTimeout = 4 * time.Second
+const ccCallTimeout = 2 * time.Second
+const ccSettleTimeout = 1 * time.Second
 
 var ccHookMu sync.Mutex
 var ccHookFn func(point string)
@@ -239,17 +240,19 @@ func ccRun(sc ccScenario, keepEvents bool) (obs ccObs) {
 			client = nil
 		}
 	}()
+	closedSoFar := false
 	defer func() {
 		ccSetHook(nil)
 		w.ReleaseAll()
-		if client != nil {
+		// a client the scenario has already closed must be clean without any further Close
+		if client != nil && !closedSoFar {
 			func() {
 				defer func() { _ = recover() }()
 				_ = client.Close()
 			}()
 		}
-		w.Settle(2 * time.Second)
-		obs.LeakRead, obs.LeakWrite = clisim.WaitClientGoroutines(base1, base2, 2*time.Second)
+		w.Settle(ccSettleTimeout)
+		obs.LeakRead, obs.LeakWrite = clisim.WaitClientGoroutines(base1, base2, 1*time.Second)
 		obs.OpenConns = w.OpenConns()
 		if keepEvents {
 			obs.Events = w.EventLog()
@@ -275,9 +278,8 @@ func ccRun(sc ccScenario, keepEvents bool) (obs ccObs) {
 	if !obs.DialOK {
 		return obs
 	}
-	w.Settle(2 * time.Second)
+	w.Settle(ccSettleTimeout)
 	ncall := 0
-	closedSoFar := false
 	for _, st := range sc.Steps {
 		if st.Close {
 			closedSoFar = true
@@ -290,7 +292,7 @@ func ccRun(sc ccScenario, keepEvents bool) (obs ccObs) {
 				}()
 				_ = client.Close()
 			}()
-			w.Settle(2 * time.Second)
+			w.Settle(ccSettleTimeout)
 			o.Dials = w.Dials()
 			obs.Steps = append(obs.Steps, o)
 			if o.Res == ccRPanic {
@@ -391,7 +393,7 @@ func ccRun(sc ccScenario, keepEvents bool) (obs ccObs) {
 		} else {
 			o.Res, o.Got = res.res, res.got
 		}
-		w.Settle(2 * time.Second)
+		w.Settle(ccSettleTimeout)
 		o.Ntx = ccCountID(w.Received(), id)
 		o.Dials = w.Dials()
 		obs.Steps = append(obs.Steps, o)
